@@ -70,7 +70,7 @@ impl<'a> TryFrom<Evaluated<'a>> for KeyType<'a> {
 /// A get operation that supports negative indexes
 fn get<T>(slice: &[T], idx: i64) -> Option<&T> {
     let vec_len = slice.len();
-    let usize_idx: usize = idx.abs().try_into().ok()?;
+    let usize_idx: usize = idx.unsigned_abs().try_into().ok()?;
 
     let adjusted_idx = if idx >= 0 {
         usize_idx
